@@ -26,6 +26,7 @@ from mc import impl
 from mc import progspace as ps
 from mc.harness import ShardResult
 from mc.harness import h64
+from mc.vloop import run_solo
 
 ID = "C16"
 LEVEL = "exploration"
@@ -60,9 +61,16 @@ class RecUndefined(Undefined):
     touched = 0
     _quiet = frozenset(StrictUndefined.allowed_properties) | {"__class__", "__slots__", "__dict__"}
 
+    paths: list[str] = []
+
     def __init__(self, *a: Any, **kw: Any) -> None:
         super().__init__(*a, **kw)
         RecUndefined.created += 1
+        # an undefined made because the ROOT name is missing carries no hint (resolve) or the hint "'name' is undefined";
+        # one made further down a path names the failing prefix ("h.a is undefined", "index out of range")
+        path, hint = object.__getattribute__(self, "path"), object.__getattribute__(self, "hint")
+        if hint is None or hint == f"{path!r} is undefined":
+            RecUndefined.paths.append(path)
 
     def __getattribute__(self, name: str) -> Any:
         if name not in RecUndefined._quiet:
@@ -124,6 +132,21 @@ def deletion_lattice(n: grammar.Names) -> list[dict[str, Any]]:
                             d[k[0]].pop(k[1], None)
                     else:
                         d.pop(k, None)
+                key = repr(sorted(d.items(), key=lambda kv: kv[0]))
+                if key not in seen:
+                    seen.add(key)
+                    out.append(d)
+    # the same lattice with the value nil instead of the key missing: a variable that EXISTS and is nil is not undefined
+    for base in bases[:2]:
+        for r in range(1, len(keys) + 1):
+            for sub in itertools.combinations(keys, r):
+                d = {k: (dict(v) if isinstance(v, dict) else v) for k, v in base.items()}
+                for k in sub:
+                    if isinstance(k, tuple):
+                        if isinstance(d.get(k[0]), dict):
+                            d[k[0]][k[1]] = None
+                    else:
+                        d[k] = None
                 key = repr(sorted(d.items(), key=lambda kv: kv[0]))
                 if key not in seen:
                     seen.add(key)
@@ -192,12 +215,20 @@ def check_case(case: dict[str, Any], res: ShardResult | None) -> list[tuple[str,
             res.count("source_does_not_parse")
         return out
     created_some = created_none = False
+    # (a macro parameter without an argument is an undefined of the parameter's own name, whatever the data holds)
+    shadowers = set(re.findall(r"[\w-]+", " ".join(re.findall(r"\{%-?\s*macro\s+([^%]*)%\}", src))))
     for d in _STATE["data"]:
         RecUndefined.created = 0
         RecUndefined.touched = 0
+        RecUndefined.paths.clear()
         base = _render(ts["default"], d)
         created = RecUndefined.created
         touched = RecUndefined.touched
+        # data keys are visible everywhere (they are globals) and a template cannot unbind a name: an undefined made
+        # for a bare name that is a key of the data means a variable that exists was treated as missing
+        ghosts = sorted({p for p in RecUndefined.paths if p in d and p not in shadowers})
+        if ghosts:
+            out.append((f"C16:undefined-created-for-a-variable-that-exists:{_construct(src)}", "no undefined for a name bound in the data", {"names": ghosts, "data": d}))
         if created:
             created_some = True
         else:
@@ -217,7 +248,14 @@ def check_case(case: dict[str, Any], res: ShardResult | None) -> list[tuple[str,
                         {"policy": pol, "render": "UndefinedError", "data": d},
                     )
                 )
-            elif o[0] == "ok" and o != base:
+            # the asynchronous path must reach the same verdict under the strict policies
+            ka, va = run_solo(ts[pol].render_async(**d))
+            oa = ("ok", va) if ka == "ok" else ("undefined", None) if isinstance(va, UndefinedError) else ("liquid", type(va).__name__) if isinstance(va, LiquidError) else ("foreign", type(va).__name__)
+            if res is not None:
+                res.evaluations += 1
+            if oa != o:
+                out.append((f"C16:{pol}-async-verdict-differs:{_construct(src)}", {"sync": o}, {"policy": pol, "async": oa, "data": d}))
+            if o[0] == "ok" and o != base:
                 out.append(
                     (
                         f"C16:{pol}-succeeds-with-different-output:{_construct(src)}",
